@@ -155,6 +155,7 @@ package core
 //@   at call buildFinalError 1 assert attemptCount == len(endpoints) && attempts == old(attempts) + len(endpoints)
 //@   ensures attempts > old(attempts) ==> member(lastAttempted, endpoints)
 //@   at return 6 assert !circuitOpen(lastErr) || attemptCount == len(endpoints)
+//@   at return 1 assert len(endpoints) == 0
 
 // ---- C15: credentials and hop-by-hop headers stop at the proxy
 //@ spec func sensHeader(k string) bool = canonHeader(k) == "Authorization" || canonHeader(k) == "Cookie" || canonHeader(k) == "X-Api-Key" || canonHeader(k) == "X-Auth-Token" || canonHeader(k) == "Proxy-Authorization"
@@ -270,14 +271,18 @@ package core
 //@ func (b *BaseProxyComponents) RecordSuccess
 //@   property C19
 //@   requires b != nil
-//@   modifies b.Stats, ProxyStats.SuccessfulRequests, ProxyStats.TotalLatency, ProxyStats.MinLatency, ProxyStats.MaxLatency
+//@   modifies b.Stats, ProxyStats.SuccessfulRequests, ProxyStats.TotalLatency, ProxyStats.MinLatency, ProxyStats.MaxLatency, gvar colSuccess, gvar colError
 //@   records recSuccess = old(recSuccess) + 1
+//@   ensures b.Stats.SuccessfulRequests == old(b.Stats.SuccessfulRequests) + 1 && b.Stats.FailedRequests == old(b.Stats.FailedRequests)
+//@   ensures b.StatsCollector != nil && endpoint != nil ==> colSuccess == old(colSuccess) + 1 && colError == old(colError)
 
 //@ func (b *BaseProxyComponents) RecordFailure
 //@   property C19
 //@   requires b != nil
-//@   modifies b.Stats, ProxyStats.FailedRequests
+//@   modifies b.Stats, ProxyStats.FailedRequests, gvar colSuccess, gvar colError
 //@   records recFailure = old(recFailure) + 1
+//@   ensures b.Stats.FailedRequests == old(b.Stats.FailedRequests) + 1 && b.Stats.SuccessfulRequests == old(b.Stats.SuccessfulRequests)
+//@   ensures b.StatsCollector != nil && endpoint != nil ==> colError == old(colError) + 1 && colSuccess == old(colSuccess)
 
 //@ func (b *BaseProxyComponents) PublishEvent
 //@   property C19
